@@ -60,7 +60,9 @@ fn gen_program(c: &mut Chooser) -> String {
     let e2 = if c.flag() { other_case(&e1) } else { e2 };
     // keys whose only use sits in a block of its own: 0 none, 1 a party that only signs, 2 a parameter that only
     // bounds the validity interval, 3 a parameter that only names a reference input
-    let lone = c.choose(4);
+    // 4.. : a parameter whose only use is a metadata key, a map key in a datum, a list item in a datum, an input's
+    // redeemer, a mint amount, a burn amount, the collateral threshold, a withdrawal amount, a second input's ref
+    let lone = c.choose(13);
     let mut s = String::new();
     s.push_str(&format!("env {{\n    {e1}: Int,\n    {e2}: Bytes,\n}}\n"));
     s.push_str(&format!("party {p1};\nparty {p2};\n"));
@@ -77,6 +79,15 @@ fn gen_program(c: &mut Chooser) -> String {
     let params = match lone {
         2 => format!("{params}, Deadline: Int"),
         3 => format!("{params}, Oracle: UtxoRef"),
+        4 => format!("{params}, Label: Int"),
+        5 => format!("{params}, SlotId: Int"),
+        6 => format!("{params}, Item: Int"),
+        7 => format!("{params}, Action: Int"),
+        8 => format!("{params}, Minted: Int"),
+        9 => format!("{params}, Burned: Int"),
+        10 => format!("{params}, Pledge: Int"),
+        11 => format!("{params}, Reward: Int"),
+        12 => format!("{params}, Pinned: UtxoRef"),
         _ => params,
     };
     s.push_str(&format!("tx transfer({params}) {{\n"));
@@ -84,15 +95,29 @@ fn gen_program(c: &mut Chooser) -> String {
         1 => s.push_str("    signers {\n        Operator,\n    }\n"),
         2 => s.push_str("    validity {\n        until_slot: Deadline,\n    }\n"),
         3 => s.push_str("    reference feed {\n        ref: Oracle,\n    }\n"),
+        8 => s.push_str("    mint {\n        amount: AnyAsset(0xABCDEF1234ABCDEF1234ABCDEF1234ABCDEF1234ABCDEF1234ABCDEF1234, \"M\", Minted),\n        redeemer: (),\n    }\n"),
+        9 => s.push_str("    burn {\n        amount: AnyAsset(0xABCDEF1234ABCDEF1234ABCDEF1234ABCDEF1234ABCDEF1234ABCDEF1234, \"B\", Burned),\n        redeemer: (),\n    }\n"),
+        10 => s.push_str(&format!("    collateral {{\n        from: {p1},\n        min_amount: Ada(Pledge),\n    }}\n")),
+        11 => s.push_str(&format!("    cardano::withdrawal {{\n        from: {p1},\n        amount: Reward,\n        redeemer: (),\n    }}\n")),
+        12 => s.push_str("    input pinned {\n        ref: Pinned,\n    }\n"),
         _ => {}
     }
-    s.push_str(&format!("    input source {{\n        from: {p1},\n        min_amount: Ada({a1}),\n    }}\n"));
+    let redeemer = if lone == 7 { "        redeemer: Action,\n" } else { "" };
+    s.push_str(&format!("    input source {{\n        from: {p1},\n        min_amount: Ada({a1}),\n{redeemer}    }}\n"));
     if with_policy {
         s.push_str("    mint {\n        amount: AnyAsset(Minting, \"T\", 1),\n        redeemer: (),\n    }\n");
     }
-    s.push_str(&format!("    output {{\n        to: {p2},\n        amount: Ada({a1}),\n    }}\n"));
+    let datum = match lone {
+        5 => "        datum: { SlotId: 1, 7: 2, },\n",
+        6 => "        datum: [1, Item, 3],\n",
+        _ => "",
+    };
+    s.push_str(&format!("    output {{\n        to: {p2},\n        amount: Ada({a1}),\n{datum}    }}\n"));
     s.push_str(&format!("    output {{\n        to: {p1},\n        amount: source - Ada({a1}) - fees,\n    }}\n"));
     let mut meta = vec![format!("        1: {a2},")];
+    if lone == 4 {
+        meta.push("        Label: \"labelled\",".to_string());
+    }
     if env_used != 1 {
         meta.push(format!("        2: {e1},"));
     }
